@@ -54,6 +54,24 @@ def scaler (all : List RawPt) : Option (RawPt → Pt) := do
     | some dx, some dy => ⟨F64.scaleTo e0 dx, F64.scaleTo e0 dy⟩
     | _, _ => ⟨0, 0⟩
 
+/-- exponent of the leading bit of a non-zero dyadic m·2^e -/
+def topExp (d : Int × Int) : Int := d.2 + (Nat.log2 d.1.natAbs : Nat)
+
+/-- scaling for the *tolerance-based* oracles only: ordinates more than 100 binary orders of magnitude below the largest one
+(e.g. denormals next to ordinary coordinates) are flushed to zero — a perturbation far below the 1e-9 relative tolerance —
+so that the integers stay below 2^153 and every Float conversion of a squared distance or determinant stays finite.
+Returns the exponent of the integer unit and the converter. -/
+def scalerFlush (all : List RawPt) : Option (Int × (RawPt → Pt)) := do
+  let ds ← (all.flatMap fun p => [p.1, p.2]).mapM F64.dyadic
+  let nz := ds.filter fun d => d.1 != 0
+  let emax := nz.foldl (fun m d => max m (topExp d)) (match nz with | d :: _ => topExp d | [] => 0)
+  let keep := fun (d : Int × Int) => d.1 != 0 && decide (emax - 100 ≤ topExp d)
+  let e0 := F64.minExp (ds.filter keep)
+  let conv := fun (u : UInt64) => match F64.dyadic u with
+    | some d => if keep d then F64.scaleTo e0 d else 0
+    | none => 0
+  some (e0, fun p => ⟨conv p.1, conv p.2⟩)
+
 def maxAbs (ps : List Pt) : Int := ps.foldl (fun m p => max m (max p.x.natAbs p.y.natAbs)) 0
 
 /-! ### linref (Float instance) -/
@@ -131,8 +149,8 @@ def roundtrip (line : String) : String :=
         match Driver.parseHex64 px, Driver.parseHex64 py, Driver.parseHex64 qx, Driver.parseHex64 qy with
         | some px, some py, some qx, some qy =>
           let all := (px, py) :: (qx, qy) :: ls.flatten
-          match scaler all with
-          | some sc =>
+          match scalerFlush all with
+          | some (_, sc) =>
             let p := sc (px, py); let q := sc (qx, qy)
             let segs := (ls.map fun l => l.map sc).flatMap segsOf
             match segs with
@@ -180,11 +198,10 @@ def oracle (line : String) : String :=
         let all := (qx, qy) :: ls.flatten
         match (all.flatMap fun p => [p.1, p.2]).mapM F64.dyadic with
         | none => "violated:non-finite-result"
-        | some ds =>
-          let e0 := F64.minExp ds
-          match scaler all with
+        | some _ =>
+          match scalerFlush all with
           | none => "non-finite"
-          | some sc =>
+          | some (e0, sc) =>
             let unit := Float.scaleB 1.0 e0             -- value of one integer unit
             let segs := (ls.map fun l => l.map sc).flatMap segsOf
             let L := polyLen (ls.map fun l => l.map sc)
@@ -202,9 +219,9 @@ def oracle (line : String) : String :=
     | some (ls, f0 :: f1 :: "|" :: rest) =>
       match Driver.parseHex64 f0, Driver.parseHex64 f1, parseLineSet rest with
       | some f0, some f1, some (out, []) =>
-        match scaler (ls.flatten ++ out.flatten) with
+        match scalerFlush (ls.flatten ++ out.flatten) with
         | none => "violated:non-finite-result"
-        | some sc =>
+        | some (_, sc) =>
           let inp := ls.map fun l => l.map sc
           let o := out.map fun l => l.map sc
           let segs := inp.flatMap segsOf
